@@ -84,7 +84,8 @@ func (s *state) clone() *state {
 // whole pattern "*" is used.
 type ruleSelector struct {
 	path  map[string]*ruleSelector
-	rules []*annotations.HttpRule
+	rules []*annotations.HttpRule // wildcard rules: cover every name below this node
+	exact []*annotations.HttpRule // rules whose selector ends at this node
 }
 
 func (r *ruleSelector) write(w io.Writer, indent string) {
@@ -92,7 +93,7 @@ func (r *ruleSelector) write(w io.Writer, indent string) {
 		fmt.Fprintf(w, "%s%s: \n", indent, key)
 		rs.write(w, indent+"  ")
 	}
-	fmt.Fprintf(w, "%srules: %v\n", indent, r.rules)
+	fmt.Fprintf(w, "%srules: %v %v\n", indent, r.rules, r.exact)
 }
 
 // String returns the string representation of the ruleSelector.
@@ -103,10 +104,12 @@ func (r *ruleSelector) String() string {
 }
 
 func (r *ruleSelector) getRules(name string) (rules []*annotations.HttpRule) {
-	rules = append(rules, r.rules...)
 	if name == "" {
-		return rules
+		// The name ends here: only selectors naming exactly this element apply.
+		return append(rules, r.exact...)
 	}
+	// A wildcard matches one or more components below this node.
+	rules = append(rules, r.rules...)
 	tag, name, _ := strings.Cut(name, ".")
 	if r = r.path[tag]; r != nil {
 		return append(rules, r.getRules(name)...)
@@ -128,7 +131,7 @@ func (r *ruleSelector) setRules(rules []*annotations.HttpRule) {
 				}
 				r.rules = append(r.rules, rule)
 			case "":
-				r.rules = append(r.rules, rule)
+				r.exact = append(r.exact, rule)
 			default:
 				rs := r.path[tag]
 				if rs == nil {
